@@ -83,7 +83,82 @@ func VerifC02TotalOps() {
 	touch(u)
 }
 
+// VerifC02TotalOps2: two-step histories where the first step creates or empties lazily
+// created state (search parameters, cleared query/fragment, clone) and the second is any
+// operation with a window argument.
+func VerifC02TotalOps2() {
+	p := symbolicParser()
+	starts := []string{"http://h/p", "http://h/p?a=1&b=2#f", "a:b ?q#f", "file:///C:/d"}
+	u, err := p.Parse(starts[vnd.Pick(len(starts))])
+	if err != nil {
+		return
+	}
+	switch vnd.Pick(6) {
+	case 0:
+		_ = u.SearchParams().String()
+	case 1:
+		u.SearchParams().Sort()
+	case 2:
+		u.SetSearch("")
+	case 3:
+		u.SetSearch("x=1")
+		u.SetSearch("")
+	case 4:
+		u = u.Clone()
+	case 5:
+		u.SetHash("")
+		u.SetPathname("")
+	}
+	op := vnd.Pick(opCount)
+	arg := vnd.Str(vnd.Len(vnd.Param("C02.KOps2", 1, 2)))
+	u = applyOp(u, op, arg)
+	touch(u)
+}
+
+var ipv4Shapes = []ctx{{"1.2.3.", ""}, {"1.2.3.4.", ""}, {"0x", ".1"}, {"1.", ".3.4"}, {"", ".0.0.1"}, {"4294967", ""}, {"0xffffff", ""}, {"1.2.", ""}}
+
+// VerifC02TotalHosts: long address shapes (where index arithmetic lives) with a symbolic window,
+// as URL hosts and as host/hostname setter values, under any configuration.
+func VerifC02TotalHosts() {
+	p := symbolicParser()
+	var host string
+	w := vnd.StrOver(vnd.Len(vnd.Param("C02.KHosts", 2, 4)), "019afAFg:.x[]%")
+	if vnd.Pick(2) == 0 {
+		c := ipv6Ctxs[vnd.Pick(len(ipv6Ctxs))]
+		host = "[" + c.pre + w + c.suf + "]"
+	} else {
+		c := ipv4Shapes[vnd.Pick(len(ipv4Shapes))]
+		host = c.pre + w + c.suf
+	}
+	switch vnd.Pick(4) {
+	case 0:
+		u, err := p.Parse("http://" + host + "/")
+		if err == nil {
+			touch(u)
+		}
+	case 1:
+		u, err := p.Parse("a://" + host + "/")
+		if err == nil {
+			touch(u)
+		}
+	case 2:
+		u, err := p.Parse("http://h/")
+		if err == nil {
+			u.SetHost(host)
+			touch(u)
+		}
+	case 3:
+		u, err := p.Parse("a://h/")
+		if err == nil {
+			u.SetHostname(host)
+			touch(u)
+		}
+	}
+}
+
 func init() {
+	verifHarnesses["VerifC02TotalHosts"] = VerifC02TotalHosts
+	verifHarnesses["VerifC02TotalOps2"] = VerifC02TotalOps2
 	verifHarnesses["VerifC02TotalParseAbs"] = VerifC02TotalParseAbs
 	verifHarnesses["VerifC02TotalParseRel"] = VerifC02TotalParseRel
 	verifHarnesses["VerifC02TotalSymBase"] = VerifC02TotalSymBase
